@@ -2,6 +2,7 @@ package harness
 
 import (
 	"errors"
+	"time"
 
 	"github.com/akramarenkov/cqos/v2/priority"
 	"github.com/akramarenkov/cqos/v2/priority/divider"
@@ -91,7 +92,28 @@ func runUtils(sc scenario) result {
 func runNew(sc scenario) result {
 	dv := dividerOf(sc.int(1))
 	handlers := sc.uint(2)
-	priorities, _ := sc.list(3)
+	priorities, next := sc.list(3)
+
+	if len(sc.args) >= next+2 {
+		// a custom divider that obeys the sum rule but not the order of the shares: the whole increment of the priority at
+		// position `from` of the list it is given goes to the priority at position `to`
+		base, from, to := dv, sc.int(next), sc.int(next+1)
+		dv = func(ps []uint, dividend uint, distribution map[uint]uint) {
+			if len(ps) == 0 || distribution == nil {
+				base(ps, dividend, distribution)
+				return
+			}
+			pf, pt := ps[from%len(ps)], ps[to%len(ps)]
+			before := distribution[pf]
+			base(ps, dividend, distribution)
+			if pf == pt {
+				return
+			}
+			inc := distribution[pf] - before
+			distribution[pf] = before
+			distribution[pt] += inc
+		}
+	}
 
 	inputs := make(map[uint]<-chan int)
 	channels := make([]chan int, 0, len(priorities))
@@ -110,11 +132,23 @@ func runNew(sc scenario) result {
 			close(ch)
 		}
 
-		for range dsc.Output() {
-		}
+		finished := make(chan error, 1)
 
-		if e := <-dsc.Err(); e != nil {
-			return result{verdict: "error-after-accept"}
+		go func() {
+			for range dsc.Output() {
+			}
+
+			finished <- <-dsc.Err()
+		}()
+
+		select {
+		case e := <-finished:
+			if e != nil {
+				return result{verdict: "error-after-accept"}
+			}
+		case <-time.After(3 * time.Second):
+			// accepted, but the discipline does not terminate although every input is closed and empty
+			return okInts(0, 1)
 		}
 
 		return okInts(0)
